@@ -77,6 +77,10 @@ def cases(tier):
     for order in (0, 1):
         for what in ("boundary", "fill_value"):
             out.append(dict(kind="twogrids", order=order, what=what))
+    # a call-time mapping overrides the bound one for that call only: the next call sees the definition again
+    for what in ("fill_value", "boundary"):
+        for middle in ("overriding-call", "rejected-overriding-call"):
+            out.append(dict(kind="rebind", what=what, middle=middle))
     return out
 
 
@@ -120,7 +124,51 @@ class Recorder:
 
 
 def case(W, cfg):
-    return {"rec": case_rec, "opts": case_opts, "reject": case_reject, "twogrids": case_twogrids}[cfg["kind"]](W, cfg)
+    return {"rec": case_rec, "opts": case_opts, "reject": case_reject, "twogrids": case_twogrids, "rebind": case_rebind}[cfg["kind"]](W, cfg)
+
+
+def case_rebind(W, cfg):
+    """options bound at definition act as if passed at call time on every call, whatever was passed to earlier calls"""
+    import xgcm
+    from xgcm.grid_ufunc import as_grid_ufunc
+    ds = xr.Dataset(coords={"xc": np.arange(2) + 0.5, "xg": np.arange(2) * 1.0, "yc": np.arange(3) + 0.5, "yg": np.arange(3) * 1.0})
+    ax = {"X": {"center": "xc", "left": "xg"}, "Y": {"center": "yc", "left": "yg"}}
+    with warnings.catch_warnings():
+        warnings.simplefilter("ignore")
+        g = xgcm.Grid(ds, coords=ax, periodic=False, boundary="extend", autoparse_metadata=False)
+    f1, f2, g1, g2 = W.scalar("f1"), W.scalar("f2"), W.scalar("g1"), W.scalar("g2")
+    bound_fill = {"X": f1, "Y": g1}
+    bound_rule = {"X": "fill", "Y": "fill"}
+    snap_fill, snap_rule = dict(bound_fill), dict(bound_rule)
+    a = W.data("a", (3, 2))
+    da = xr.DataArray(a, dims=["yc", "xc"])
+    wrong = xr.DataArray(W.data("w", (3, 2)), dims=["yg", "xc"])
+    rec = Recorder(W, [2], [(3, 2)])
+    gu = as_grid_ufunc(signature="(V:center,U:center)->(V:left,U:left)", boundary_width={"U": (1, 0), "V": (0, 0)}, boundary=bound_rule, fill_value=bound_fill)(lambda *arrays: rec(*arrays))
+    over = dict(fill_value={"X": f2, "Y": g2}) if cfg["what"] == "fill_value" else dict(boundary={"X": "extend", "Y": "periodic"})
+
+    def expect(label, rule, fill):
+        want = apply_along(a, 1, lambda v: spec_pad1d(v, 1, 0, rule, fill))
+        got = rec.received[0]
+        W.require("rebind-shape:" + label, tuple(got.shape) == tuple(want.shape), "%s vs %s" % (got.shape, want.shape))
+        if tuple(got.shape) == tuple(want.shape):
+            W.equal("rebind-received:%s:%s" % (cfg["what"], label), got, want)
+    gu(g, da, axis=[("Y", "X")])
+    expect("first-call", "fill", f1)
+    rec.received = None
+    if cfg["middle"] == "overriding-call":
+        gu(g, da, axis=[("Y", "X")], **over)
+        expect("overriding-call", "fill" if cfg["what"] == "fill_value" else "extend", f2 if cfg["what"] == "fill_value" else f1)
+    else:
+        try:
+            gu(g, wrong, axis=[("Y", "X")], **over)
+            W.require("rebind-wrong-position-rejected", False, "input on the wrong position accepted")
+        except ValueError:
+            W.require("rebind-wrong-position-rejected", True)
+    rec.received = None
+    gu(g, da, axis=[("Y", "X")])
+    expect("call-after-" + cfg["middle"], "fill", f1)
+    W.require("rebind-bound-mappings-unchanged", bound_fill == snap_fill and bound_rule == snap_rule, "mappings given to the decorator changed: %s %s" % (bound_fill, bound_rule))
 
 
 def case_twogrids(W, cfg):
